@@ -239,7 +239,7 @@ func resultAlloc(fn *ssa.Function, idx int) *ssa.Alloc {
 		if !ok || idx >= len(r.Results) {
 			return
 		}
-		if l, ok := r.Results[idx].(*ssa.UnOp); ok && l.Op == token.MUL {
+		if l, ok := kit.Res(r, idx).(*ssa.UnOp); ok && l.Op == token.MUL {
 			if a, ok := l.X.(*ssa.Alloc); ok {
 				out = a
 			}
@@ -439,4 +439,166 @@ func clientDownOnlyWhenDead(c *kit.Ctx, hre, est *ssa.Function) {
 			c.Bad(fn, "declared-dead", s.Pos(), "unexpected caller of client.clientDown: connections may be dropped from the cache while healthy", "")
 		}
 	}
+}
+
+// elemsOfVariadic returns the elements of the implicit slice literal of a variadic call
+// (append(x, a, b) -> [a b]) in index order, or nil when v is an ordinary slice (append(x, s...)).
+func elemsOfVariadic(v ssa.Value) []ssa.Value {
+	sl, ok := v.(*ssa.Slice)
+	if !ok {
+		return nil
+	}
+	arr, ok := sl.X.(*ssa.Alloc)
+	if !ok {
+		return nil
+	}
+	byIdx := map[int64]ssa.Value{}
+	max := int64(-1)
+	kit.Instrs(arr.Parent(), func(in ssa.Instruction) {
+		if st, ok := in.(*ssa.Store); ok {
+			if ia, ok := st.Addr.(*ssa.IndexAddr); ok && ia.X == ssa.Value(arr) {
+				if k, ok := kit.ConstInt(ia.Index); ok {
+					byIdx[k] = st.Val
+					if k > max {
+						max = k
+					}
+				}
+			}
+		}
+	})
+	var out []ssa.Value
+	for i := int64(0); i <= max; i++ {
+		if byIdx[i] == nil {
+			return nil
+		}
+		out = append(out, byIdx[i])
+	}
+	return out
+}
+
+// singleCallSite returns the only static call site of fn in the analysed sources (nil if there are
+// none or several, or fn is a method that may be reached through an interface).
+func singleCallSite(p *kit.Prog, fn *ssa.Function) ssa.CallInstruction {
+	if fn == nil || fn.Object() == nil || fn.Object().Exported() {
+		return nil
+	}
+	sites := callersOf(p, calleeFullName(fn))
+	if len(sites) != 1 {
+		return nil
+	}
+	return sites[0]
+}
+
+// rootThroughHelpers is kit.Root that also looks through the parameters of unexported helpers with a
+// single call site (an extracted helper sees exactly the argument of that site).
+func rootThroughHelpers(p *kit.Prog, v ssa.Value) ssa.Value {
+	for i := 0; i < 6; i++ {
+		r := kit.Root(v)
+		pa, ok := r.(*ssa.Parameter)
+		if !ok {
+			return r
+		}
+		site := singleCallSite(p, pa.Parent())
+		if site == nil {
+			return r
+		}
+		args := argsFor(site, pa.Parent())
+		idx := -1
+		for k, q := range pa.Parent().Params {
+			if q == pa {
+				idx = k
+			}
+		}
+		if idx < 0 || idx >= len(args) {
+			return r
+		}
+		v = args[idx]
+	}
+	return kit.Root(v)
+}
+
+// withHelpers returns fn followed by the unexported same-package functions it calls (transitively,
+// depth 3) that have no other call site: code that a refactoring moved out of fn.
+func withHelpers(p *kit.Prog, fn *ssa.Function) []*ssa.Function {
+	out := []*ssa.Function{fn}
+	seen := map[*ssa.Function]bool{fn: true}
+	for depth, frontier := 0, []*ssa.Function{fn}; depth < 3 && len(frontier) > 0; depth++ {
+		var next []*ssa.Function
+		for _, f := range frontier {
+			kit.Instrs(f, func(in ssa.Instruction) {
+				ci, ok := in.(ssa.CallInstruction)
+				if !ok {
+					return
+				}
+				cal := kit.StaticCallee(ci)
+				if cal == nil || seen[cal] || cal.Pkg != fn.Pkg || cal.Blocks == nil {
+					return
+				}
+				if site := singleCallSite(p, cal); site == nil {
+					return
+				}
+				seen[cal] = true
+				out = append(out, cal)
+				next = append(next, cal)
+			})
+		}
+		frontier = next
+	}
+	return out
+}
+
+// resultFlowsFrom: v is (on every non-nil path) a value satisfying pred, possibly handed up through
+// the results of module functions (every return of such a function yields, at that index, nil or a
+// value that flows from pred).
+func resultFlowsFrom(v ssa.Value, pred func(ssa.Value) bool, depth int) bool {
+	if depth > 4 {
+		return false
+	}
+	r := kit.Root(v)
+	if pred(r) {
+		return true
+	}
+	if ph, ok := r.(*ssa.Phi); ok {
+		any := false
+		for _, l := range kit.PhiLeaves(ph) {
+			if kit.IsNilConst(l) {
+				continue
+			}
+			if !resultFlowsFrom(l, pred, depth+1) {
+				return false
+			}
+			any = true
+		}
+		return any
+	}
+	ex, ok := r.(*ssa.Extract)
+	if !ok {
+		return false
+	}
+	call, ok := ex.Tuple.(*ssa.Call)
+	if !ok {
+		return false
+	}
+	cal := kit.StaticCallee(call)
+	if cal == nil || cal.Blocks == nil {
+		return false
+	}
+	any := false
+	good := true
+	kit.Instrs(cal, func(in ssa.Instruction) {
+		ret, ok := in.(*ssa.Return)
+		if !ok || ex.Index >= len(ret.Results) {
+			return
+		}
+		x := kit.Res(ret, ex.Index)
+		if kit.IsNilConst(kit.Root(x)) {
+			return
+		}
+		if resultFlowsFrom(x, pred, depth+1) {
+			any = true
+		} else {
+			good = false
+		}
+	})
+	return good && any
 }
